@@ -8,7 +8,8 @@ whose rule matches. Entries with "expect": "held" are behaviour-preserving refac
 must NOT change the verdict. The scratch tree is removed at the end. Nothing here is used as
 evidence for a property; it tests the checker.
 
-usage: run.py [-k substring] [--keep]
+usage: run.py [-k substring] [--shard i/n] [--keep]   (--shard runs every n-th variant starting at i, so that
+n processes can share the work: for i in 0 1 2 3; do run.py --shard $i/4 & done)
 """
 import json, os, shutil, subprocess, sys, tempfile
 
@@ -20,6 +21,10 @@ ENV.pop("GOWORK", None)
 
 def main():
     sel = None
+    shard = None
+    if "--shard" in sys.argv:
+        a, b = sys.argv[sys.argv.index("--shard") + 1].split("/")
+        shard = (int(a), int(b))
     if "-k" in sys.argv:
         sel = sys.argv[sys.argv.index("-k") + 1]
     muts = json.load(open(os.path.join(VERIF, "selftest", "mutants.json")))
@@ -39,8 +44,10 @@ def main():
     bad = 0
     ran = 0
     try:
-        for m in muts:
+        for idx, m in enumerate(muts):
             if sel and sel not in m["name"] and sel not in m["prop"]:
+                continue
+            if shard and idx % shard[1] != shard[0]:
                 continue
             ran += 1
             edits = m.get("edits") or ([] if m.get("seed") else [m])
